@@ -13,6 +13,7 @@ from ..terms import T, contains, deps, mk
 from .common import analyses, env_site, leaves, txt
 from . import c01
 
+EXPLANATION_R6 = " (R6) a spawn helper that step calls with the value it stores in a state field receives, in reset, the value reset stores in that field -- not an earlier version of it (entities start on distinct free cells; borrowed from C07.R3)."
 EXPLANATION = (
     "Decided: (R1) key dependence -- for every concrete generator class shipped with the environments (its __call__ "
     "evaluated symbolically on its own) and for every environment that samples inside reset: (a) State.key of the "
@@ -92,7 +93,7 @@ def state_fields(vfg, st: T):
 
 def check(tier: str) -> Result:
     tree = get_tree()
-    res = Result(explanation=EXPLANATION)
+    res = Result(explanation=EXPLANATION + EXPLANATION_R6)
     gens = generator_classes(tree)
     if len(gens) < MIN_GENERATORS:
         raise AnalysisError(f"only {len(gens)} concrete generator classes found (hand-confirmed minimum {MIN_GENERATORS})")
@@ -217,6 +218,10 @@ def check(tier: str) -> Result:
     for o in r1.obligations:
         if o.rule == "C01.R6":
             res.add("C10.R3", o.site, o.func, o.construct, o.ok, o.detail, nontrivial=o.nontrivial)
+    # ---- R6: reset-side spawn helpers receive the value reset stores in the state, not an earlier version of it
+    # (e.g. the first fruit sampled against the board before the snake's head is placed): borrowed from C07.R3
+    from .common import borrow
+    n_spawn = borrow(res, "c07", {"C07.R3": "C10.R6"}, only_if=lambda ob: ".reset ->" in ob.func)
     from . import wiring
     n_w = wiring.add_obligations(res, tree, "C10.R5", lambda ci: ci.module.name.endswith(".generator") and ci.module.name.startswith("jumanji.environments."))
     # ------------------------------------------------------------------ R4 axis-kind consistency inside generators
